@@ -101,7 +101,9 @@ package proxy
 //@   requires cached_fakes_are_complete: forall k string :: has(ctx.p.ifaceCache, k) ==> ctx.p.ifaceCache[k] != nil && ctx.p.ifaceCache[k].Tab != nil
 //@   assume reflect_model_fact: rt_kind(rt_of(typeof(imp))) == reflect.Func
 //@   assume method_table_capacity: rt_kind(rt_of(typeof(ifaceVar))) == reflect.Ptr ==> rt_nummethod(rt_elem(rt_of(typeof(ifaceVar)))) < 999
-//@   assigns everything
+//@   assigns stub.placeHolderIns.off, ticket_lo, ticket_hi, textmem, perm, rw_wheld[addr(memory.memoryAccessLock)], ctx.p.proxyFunc, ctx.p.retained,
+//@     | ctx.p.retained[len(ctx.p.retained) : cap(ctx.p.retained)], unexports2.symTable, unexports2.symTableLoadError, unexports2.funcAlignment, unexports2.varAlignment,
+//@     | ctx.p.originIface, ctx.p.originIfaceValue, mapof(ctx.p.ifaceCache), anyfield(hack.Iface, Tab), anyfield(hack.Iface, Data), anyfield(hack.Itab, Fun)
 //@   ensures rejected_before_any_write: result != nil ==> var_of(ifaceVar).Tab == old(var_of(ifaceVar).Tab) && var_of(ifaceVar).Data == old(var_of(ifaceVar).Data) && forall a uintptr :: textmem[a] == old(textmem[a])
 //@   ensures non_pointer_or_non_interface_rejected: rt_kind(rt_of(typeof(ifaceVar))) != reflect.Ptr || rt_kind(rt_elem(rt_of(typeof(ifaceVar)))) != reflect.Interface ==> result != nil
 //@   ensures variable_is_not_nil: result == nil ==> var_of(ifaceVar).Tab != nil
@@ -109,3 +111,4 @@ package proxy
 //@   ensures original_value_backed_up_once: result == nil ==> ctx.p.originIfaceValue != nil && (old(ctx.p.originIfaceValue) != nil ==> ctx.p.originIfaceValue == old(ctx.p.originIfaceValue))
 //@   ensures callback_anchored: result == nil ==> len(ctx.p.retained) == old(len(ctx.p.retained)) + 1
 //@   panics_only_if stub_or_reflect_failure: true
+//@   ensures_on_panic variable_untouched: var_of(ifaceVar).Tab == old(var_of(ifaceVar).Tab) && var_of(ifaceVar).Data == old(var_of(ifaceVar).Data)
